@@ -29,7 +29,7 @@ VarOf(name, t) == [k |-> "var", l |-> name, id |-> name, sfx |-> Sfx(t)]
 
 Leaves == { MkI(-32768), MkI(-1), MkI(0), MkI(1), MkI(2), MkI(7), MkI(32767),
             MkF("S", -3, 1), MkF("S", 1, 1), MkF("S", 2, 0), MkF("S", 32768, 0), MkF("S", 65536, 0), MkF("S", -65537, 1),
-            MkF("D", -1, 1), MkF("D", 3, 0), MkF("D", 65535, 1),
+            MkF("D", -1, 1), MkF("D", 3, 0), MkF("D", 65535, 1), MkF("D", 2, 0), MkF("D", 1, 1), MkF("D", -3, 1), MkF("D", 32768, 0),
             MkStr(<<>>), MkStr(<<65>>) }
 SmallLeaves == { MkI(-32768), MkI(0), MkI(3), MkI(32767), MkF("S", 5, 1), MkF("S", 32768, 0), MkF("D", -7, 2), MkStr(<<65>>) }
 
